@@ -7,11 +7,13 @@ mod capi;
 mod capiread;
 mod cli;
 mod comp;
+mod compstream;
 mod derive;
 mod format;
 mod confid;
 mod enc;
 mod fscomp;
+mod fsstack;
 mod fuzz;
 mod header;
 mod hdrsrc;
@@ -128,7 +130,7 @@ fn main() {
         #[cfg(feature = "scaled")]
         "c11-stack" => comp::c11_stack_cases(&mut rng, &tier, &mut out),
         #[cfg(feature = "scaled")]
-        "c08-stack" => comp::c08_stack_cases(&mut rng, &tier, &mut out),
+        "c08-stack" => compstream::c08_stack_cases(&mut rng, &tier, &mut out),
         #[cfg(feature = "scaled")]
         "c11-cw" => comp::c11_cw_cases(&mut rng, &tier, &mut out),
         #[cfg(feature = "scaled")]
